@@ -31,7 +31,7 @@ import logging
 
 from explorerscript.error import SsbCompilerError
 from explorerscript.ssb_converting.ssb_data_types import SsbOperation
-from explorerscript.ssb_converting.ssb_special_ops import SsbLabelJump, SsbLabel
+from explorerscript.ssb_converting.ssb_special_ops import SsbLabelJump, SsbLabel, OPS_WITH_JUMP_TO_MEM_OFFSET
 from explorerscript.util import f, _
 
 logger = logging.getLogger(__name__)
@@ -64,4 +64,9 @@ class OpsLabelJumpToRemover:
                     # Remove
                     pass
                 else:
+                    if op.op_code.name in OPS_WITH_JUMP_TO_MEM_OFFSET:
+                        # Written as a regular operation it would have no (valid) offset to jump to.
+                        raise SsbCompilerError(
+                            f(_("The operation {op.op_code.name} jumps and can not be used without a label to jump to."))
+                        )
                     new_rtn_ops.append(op)
